@@ -1,6 +1,6 @@
 (* C12 -- Moral graph adjacency is collider-connectedness and decides separation. Statements: C12/Spec.v *)
 From Coq Require Import List Arith.
-From PG Require Import Base.ListSet Graph.MGraph Graph.MSep C12.Model C12.Enum C12.Spec C12.Proofs C12.Bounded_3.
+From PG Require Import Base.ListSet Graph.MGraph Graph.MSep C12.Model C12.Enum C12.Spec C12.Proofs C12.Bounded_3 C12.Bounded_4.
 Import ListNotations.
 
 (* clause 1 (all graphs): adjacent in the moral graph <-> joined by an edge or by a path whose inner nodes are all colliders *)
@@ -40,3 +40,16 @@ Theorem moral_criterion_bounded_3 : forall n ks, n <= 3 -> in_admg n ks \/ in_an
     (msep (graph_of n ks) X Y Z <-> moral_sep (graph_of n ks) X Y Z = true).
 Proof. exact C12.Bounded_3.moral_criterion_bounded_3. Qed.
 Print Assumptions moral_criterion_bounded_3.
+
+(* clause 2 on 4 nodes: every acyclic graph with at most one edge per node pair (none, ->, <-, <->, --) and no arrowhead at
+   an endpoint of an undirected edge -- in particular every DAG on 4 nodes *)
+Theorem moral_criterion_bounded_anc_4 : forall ks, in_anc 4 ks ->
+  forall X Y Z, In X (sublists (seq 0 4)) -> In Y (sublists (seq 0 4)) -> In Z (sublists (seq 0 4)) ->
+    disjointb X Y = true -> disjointb X Z = true -> disjointb Y Z = true ->
+    (msep (graph_of 4 ks) X Y Z <-> moral_sep (graph_of 4 ks) X Y Z = true).
+Proof. exact C12.Bounded_4.moral_criterion_bounded_anc_4. Qed.
+Print Assumptions moral_criterion_bounded_anc_4.
+
+Theorem moral_criterion_bounded_dag_4 : forall ks, in_dag 4 ks -> moral_criterion_on 4 ks.
+Proof. exact C12.Bounded_4.moral_criterion_bounded_dag_4. Qed.
+Print Assumptions moral_criterion_bounded_dag_4.
